@@ -288,6 +288,7 @@ void do_op(int t, int kind, size_t n, int64_t arg, int opid) {
         avail = (!push_in_progress && done_push > done_pop) ? (size_t)(done_push - done_pop) : 0;
       }
       int64_t t0 = now_ns();
+      int64_t blocked0 = my_blocked_ns();
       watch_deadline(t0 + us * 1000);
       size_t got = 0;
       hx::with_flags2(false, S->popK, [&](auto, auto k) {
@@ -295,6 +296,10 @@ void do_op(int t, int kind, size_t n, int64_t arg, int opid) {
       });
       uint64_t late = points_since_deadline();
       watch_deadline(-1);
+      // every wait inside the call gets the REMAINING time, so the call can never
+      // have slept (blocked until runnable again) for more than its timeout in total
+      int64_t slept = my_blocked_ns() - blocked0;
+      if (slept > us * 1000 + 2000) fail("deadline", "xpop-slept-longer-than-timeout", "timed exclusive pop with a %lldus timeout spent %lldns blocked in waits (an interrupted wait was restarted with the full timeout?)", (long long)us, (long long)slept);
       r->got = got; r->failed = false;  // shortness judged here, not by the generic try rule
       if (got != r->vals.size() || got > n) fail("api", "xpop", "try_pop_n_exclusively_until(%zu) returned %zu but delivered %zu", n, got, r->vals.size());
       if (got < std::min(n, avail)) fail("short", "xpop", "timed exclusive pop of %zu returned %zu although %zu elements were completely pushed before the call", n, got, avail);
